@@ -6,6 +6,9 @@
 //!   renum  IN sym k (perm_j sym_j)*k   OUT canonical(sym)  canonical(sym_1) … canonical(sym_k)
 //!   pair   IN a b                      OUT canonical(a)  canonical(b)
 //!   seeds  IN sym                      OUT minimal-code  (code_d map_d) for every seed d
+//!   history IN k sym_1 … sym_k         OUT (canonical(sym_j) canonical(canonical(sym_j))) for j = 1..k,
+//!                                      all computed one after the other inside ONE call sequence
+//!                                      (one thread, one process) — state kept between calls shows
 use rust_dsymbols::covers::finite_universal_cover;
 use rust_dsymbols::delaney2d::is_spherical;
 use rust_dsymbols::derived::{canonical, cover};
@@ -174,6 +177,225 @@ fn cyclic_cover(rng: &mut Rng, t: &Tab, s: usize) -> Option<Tab> {
     }
 }
 
+/// boundary values for branching numbers: digit-count, byte, 16- and 32-bit boundaries
+const BOUNDARY: [usize; 22] = [
+    1, 2, 3, 9, 10, 11, 12, 13, 21, 99, 100, 127, 128, 255, 256, 257, 300, 900, 65535, 65536, 1 << 31, (1 << 32) + 1,
+];
+/// tiny values against values beyond one byte / two bytes / four bytes
+const CONTRAST: [usize; 10] = [1, 2, 3, 256, 300, 900, 65535, 65536, 1 << 31, (1 << 32) + 1];
+
+/// all ways to cut the digit string `s` into exactly `n` decimal numbers in 1..=maxv (no leading
+/// zero), at most `cap` of them
+fn tokenizations(s: &[u8], n: usize, maxv: usize, cap: usize) -> Vec<Vec<usize>> {
+    fn rec(s: &[u8], pos: usize, left: usize, maxv: usize, cur: &mut Vec<usize>, out: &mut Vec<Vec<usize>>, cap: usize) {
+        if out.len() >= cap {
+            return;
+        }
+        if left == 0 {
+            if pos == s.len() {
+                out.push(cur.clone());
+            }
+            return;
+        }
+        // remaining characters must suffice / not exceed 20 digits per token
+        if s.len() - pos < left {
+            return;
+        }
+        if pos < s.len() && s[pos] == b'0' {
+            return;
+        }
+        let mut v: usize = 0;
+        for end in pos..s.len().min(pos + 12) {
+            v = v * 10 + (s[end] - b'0') as usize;
+            if v > maxv {
+                break;
+            }
+            cur.push(v);
+            rec(s, end + 1, left - 1, maxv, cur, out, cap);
+            cur.pop();
+        }
+    }
+    let mut out = vec![];
+    rec(s, 0, n, maxv, &mut vec![], &mut out, cap);
+    out
+}
+
+fn row_digits(row: &[usize]) -> Vec<u8> {
+    let mut s = String::new();
+    for x in &row[1..] {
+        s.push_str(&x.to_string());
+    }
+    s.into_bytes()
+}
+
+fn v_on_orbits(t: &Tab) -> bool {
+    (0..t.dim).all(|i| (1..=t.size).all(|d| t.v[i][d] >= 1 && t.v[i][t.op[i][d]] == t.v[i][d] && t.v[i][t.op[i + 1][d]] == t.v[i][d]))
+}
+
+fn is_involution(row: &[usize]) -> bool {
+    (1..row.len()).all(|d| row[d] >= 1 && row[d] < row.len() && row[row[d]] == d)
+}
+
+/// other valid connected symbols of the same size and dimension whose operation and branching
+/// rows read the same as those of `t` once the decimal numbers of a row are written without
+/// separators (e.g. v row [2,13] / [21,3], op row [1,12,…] / [11,2,…])
+fn confusables(t: &Tab, cap: usize) -> Vec<Tab> {
+    let n = t.size;
+    let mut op_alts: Vec<Vec<Vec<usize>>> = vec![];
+    for i in 0..=t.dim {
+        let alts: Vec<Vec<usize>> = tokenizations(&row_digits(&t.op[i]), n, n, 64)
+            .into_iter()
+            .map(|r| {
+                let mut x = vec![0];
+                x.extend(r);
+                x
+            })
+            .filter(|r| is_involution(r))
+            .collect();
+        op_alts.push(alts);
+    }
+    let mut v_alts: Vec<Vec<Vec<usize>>> = vec![];
+    for i in 0..t.dim {
+        let alts: Vec<Vec<usize>> = tokenizations(&row_digits(&t.v[i]), n, usize::MAX >> 8, 256)
+            .into_iter()
+            .map(|r| {
+                let mut x = vec![0];
+                x.extend(r);
+                x
+            })
+            .collect();
+        v_alts.push(alts);
+    }
+    let mut out: Vec<Tab> = vec![];
+    // product over the op rows (few alternatives each), then over the v rows
+    let mut idx = vec![0usize; t.dim + 1];
+    'ops: loop {
+        let mut b = t.clone();
+        for i in 0..=t.dim {
+            b.op[i] = op_alts[i][idx[i]].clone();
+        }
+        if b.far_commute() && b.is_connected() {
+            let mut vidx = vec![0usize; t.dim];
+            'vs: loop {
+                for i in 0..t.dim {
+                    b.v[i] = v_alts[i][vidx[i]].clone();
+                }
+                if b != *t && v_on_orbits(&b) {
+                    out.push(b.clone());
+                    if out.len() >= cap {
+                        return out;
+                    }
+                }
+                let mut k = 0;
+                loop {
+                    if k >= t.dim {
+                        break 'vs;
+                    }
+                    vidx[k] += 1;
+                    if vidx[k] < v_alts[k].len() {
+                        break;
+                    }
+                    vidx[k] = 0;
+                    k += 1;
+                }
+            }
+        }
+        let mut k = 0;
+        loop {
+            if k > t.dim {
+                break 'ops;
+            }
+            idx[k] += 1;
+            if idx[k] < op_alts[k].len() {
+                break;
+            }
+            idx[k] = 0;
+            k += 1;
+        }
+    }
+    out
+}
+
+/// multi-digit branching numbers 1..40, biased towards values whose digits run together
+fn history_v(rng: &mut Rng) -> usize {
+    const CONF: [usize; 14] = [1, 11, 2, 22, 3, 33, 12, 21, 13, 31, 23, 32, 4, 14];
+    if rng.chance(2, 3) {
+        CONF[rng.below(CONF.len())]
+    } else {
+        1 + rng.below(40)
+    }
+}
+
+fn assign_history_vs(t: &Tab, rng: &mut Rng) -> Tab {
+    let mut s = t.clone();
+    for i in 0..t.dim {
+        for d in t.orbit_reps2(i) {
+            let v = history_v(rng);
+            s.set_v_orbit(i, d, v);
+        }
+    }
+    s
+}
+
+/// one history: a long sequence of different small symbols, each followed by the symbols it can be
+/// confused with and now and then by a renumbering
+fn make_history(rng: &mut Rng, small: &[Tab], bases: &[Vec<Tab>], len: usize, first: &[Tab]) -> Vec<Tab> {
+    let mut h: Vec<Tab> = first.to_vec();
+    let mut tries = 0;
+    while h.len() < len && tries < 20 * len {
+        tries += 1;
+        let t = if rng.chance(1, 4) {
+            small[rng.below(small.len())].clone()
+        } else {
+            let fam = &bases[rng.below(bases.len())];
+            let k = rng.below(fam.len());
+            match cyclic_cover(rng, &fam[k], 2) {
+                Some(c) => c,
+                None => continue,
+            }
+        };
+        let s = assign_history_vs(&t, rng);
+        let conf = confusables(&s, 3);
+        if rng.chance(1, 4) {
+            let p = random_perm1(rng, s.size);
+            h.push(s.renumbered(&p));
+        }
+        h.push(s);
+        h.extend(conf);
+    }
+    h.truncate(len);
+    h
+}
+
+fn run_history(ctx: &mut Ctx, h: &[Tab], tag: &str) {
+    ctx.case(
+        "history",
+        tag,
+        || {
+            let mut s = h.len().to_string();
+            for t in h {
+                s.push(' ');
+                s.push_str(&t.enc());
+            }
+            s
+        },
+        || {
+            let mut s = String::new();
+            for t in h {
+                let c1 = canonical(&t.to_partial_dsym());
+                let c2 = canonical(&c1);
+                if !s.is_empty() {
+                    s.push(' ');
+                }
+                s.push_str(&Tab::from_dsym(&c1).enc());
+                s.push(' ');
+                s.push_str(&Tab::from_dsym(&c2).enc());
+            }
+            s
+        },
+    );
+}
+
 fn parse(s: &str) -> Tab {
     Tab::from_dsym(&s.parse::<PartialDSym>().unwrap())
 }
@@ -192,6 +414,19 @@ fn main() {
         let t = parse(s);
         let perms: Vec<Vec<usize>> = (0..3).map(|_| random_perm1(&mut rng, t.size)).collect();
         run_symbol(&mut ctx, &t, &perms, &format!("nt suite dim={} size={}", t.dim, t.size));
+    }
+
+    // regression: a branching number beyond one byte (v = 300) — every renumbering
+    {
+        let t = parse("<1.1:4:1 2 4,1 3 4,2 3 4:2 9,900 2>");
+        run_symbol(&mut ctx, &t, &all_perms(4), "nt regress bigv dim=2 size=4");
+    }
+    // regression: two different symbols whose tables read the same without separators,
+    // canonicalised one after the other
+    {
+        let a = parse("<1.1:2:1 2,1 2,2:2 13,4>");
+        let b = parse("<1.1:2:1 2,1 2,2:21 3,4>");
+        run_history(&mut ctx, &[a.clone(), b.clone(), a, b], "nt regress history dim=2 size=2");
     }
 
     // (1) every connected complete D-set with commuting far operations below the bound,
@@ -343,6 +578,55 @@ fn main() {
                     run_pair(&mut ctx, &big[k], &big[k2].renumbered(&p), &tag);
                 }
             }
+        }
+    }
+    // (3) boundary-valued branching numbers (digit counts, 2^8, 2^16, 2^31, 2^32) on small
+    //     connected D-sets, all or many renumberings each
+    {
+        let mut rng = ctx.rng(4);
+        let (quota, nassign, nperm_b) = if th { (3000, 4, 40) } else { (150, 2, 12) };
+        for &(dim, nmax) in &[(2usize, 6usize), (3, 4)] {
+            for n in 1..=nmax {
+                let sets = dsets(dim, n, true, true, false);
+                let exhaustive = sets.len() <= quota;
+                let count = if exhaustive { sets.len() } else { quota };
+                let perms_all = if n <= 4 { all_perms(n) } else { vec![] };
+                for k in 0..count {
+                    let t = if exhaustive { &sets[k] } else { &sets[rng.below(sets.len())] };
+                    for a in 0..nassign {
+                        let s = if a % 2 == 0 { random_vs(t, &mut rng, &CONTRAST) } else { random_vs(t, &mut rng, &BOUNDARY) };
+                        let perms: Vec<Vec<usize>> = if n <= 4 {
+                            perms_all.clone()
+                        } else {
+                            (0..nperm_b).map(|_| random_perm1(&mut rng, n)).collect()
+                        };
+                        run_symbol(&mut ctx, &s, &perms, &format!("nt bigv dim={} size={}", dim, n));
+                    }
+                }
+            }
+        }
+    }
+    // (4) histories: long runs of canonical() on many different symbols inside one call sequence
+    {
+        let mut rng = ctx.rng(5);
+        let (nhist, len) = if th { (48, 240) } else { (8, 160) };
+        let mut small: Vec<Tab> = vec![];
+        for n in 2..=4 {
+            small.extend(dsets(2, n, true, true, false));
+        }
+        small.extend(dsets(3, 2, true, true, false));
+        let bases: Vec<Vec<Tab>> = vec![dsets(2, 5, true, true, false), dsets(2, 6, true, true, false), {
+            let mut v = vec![];
+            while v.len() < 40 {
+                if let Some(t) = verif_harness::dsgen::random_dset(&mut rng, 2, 7, true) {
+                    v.push(t);
+                }
+            }
+            v
+        }];
+        for _ in 0..nhist {
+            let h = make_history(&mut rng, &small, &bases, len, &[]);
+            run_history(&mut ctx, &h, "nt history");
         }
     }
     ctx.finish();
